@@ -38,6 +38,8 @@ def ncases(tier):
 
 
 def gen_case(rng, i):
+    if i % 12 == 5:
+        return gen_same_object(rng)
     flavour = "exact" if rng.random() < 0.6 else "float"
     kind = "cable" if rng.random() < 0.25 else "wire"
     stat = (i % 12 == 0)
@@ -89,6 +91,8 @@ def gen_case(rng, i):
                 last_phase = a["phase"]
             a["t"] += shift
         case["phase_gap"] = gap
+    if kind == "wire" and not stat and rng.random() < 0.12:
+        case["rx_returns_event"] = True
     if kind == "cable":
         case["arrivals2"] = vnet.gen_arrivals(rng, 3, flavour, rng.randint(2, 40), [100, 500], None)
         case["loss"] = rng.choice([None, None, 0])
@@ -163,6 +167,18 @@ def run_case(case, stats):
         w = Wire(env, delay, case["loss"])
         sink = net.recorder("sink")
         w.out = sink
+        if case.get("rx_returns_event"):
+            # a receiver that is itself a bounded store nobody drains: its put() returns a *pending* event from the
+            # second packet on.  What the receiver returns is none of the wire's business.
+            from onl.sim import Store
+            box = Store(env, capacity=1)
+            rput = sink.put
+
+            def put_returning_event(p):
+                rput(p)
+                return box.put(p)
+            sink.put = put_returning_event
+            stats["receivers_returning_pending_events"] += 1
         net.tap_put(w, "wire")
         net.drivers(w, case["arrivals"])
         err = net.run()
@@ -306,13 +322,80 @@ def run_phased(case, stats, net):
 
 
 KEYS = ("big_clock_cases", "loss_reconfigured_cases", "loss_seed_comparisons", "deliveries_checked", "held_back_by_predecessor", "arrived_during_propagation", "loss_all_cases",
-        "loss_none_cases", "loss_stat_packets", "cable_cases")
+        "loss_none_cases", "loss_stat_packets", "cable_cases", "receivers_returning_pending_events", "same_object_cases", "same_object_reentries")
+
+
+def gen_same_object(rng):
+    flavour = "exact"
+    n = rng.randint(3, 30)
+    pool = [0, 0.25, 0.5, 1, 2, 3, 4.5]
+    ts, t = [], 0
+    for _ in range(n):
+        t += rng.choice([0, 0, 0.25, 0.5, 1, 1, 2, 5])
+        ts.append(t)
+    return {"kind": "same-object", "flavour": flavour, "times": ts, "again": [k > 0 and rng.random() < 0.4 for k in range(n)],
+            "delays": [rng.choice(pool) for _ in range(n + 2)] if rng.random() < 0.5 else [rng.choice(pool)] * (n + 2)}
+
+
+def run_same_object(case, stats):
+    """one Packet object handed to the wire again while an earlier pass is still propagating (a retransmission of
+    the stored instance, a hub repeating one object): every pass is a packet in its own right"""
+    from onl.netdev import Wire
+    viol = []
+    net = vnet.Net(0)
+    env = net.env
+    delay = vnet.Script(case["delays"], net, "delay")
+    w = Wire(env, delay, None)
+    got = []
+
+    class Rx:
+        def put(self, p):
+            got.append((env.now, id(p)))
+    w.out = Rx()
+    entered, keep = [], []
+
+    def src():
+        last, p = 0, None
+        for k, t in enumerate(case["times"]):
+            if t > last:
+                yield env.timeout(t - last)
+                last = t
+            if not (case["again"][k] and p is not None):
+                p = net.make_packet(0, 100, k)
+                keep.append(p)
+            else:
+                stats["same_object_reentries"] += 1
+            entered.append((env.now, id(p)))
+            w.put(p)
+    env.process(src())
+    err = net.run()
+    if err:
+        return [(err, "the run raised", net.errors[-1] if net.errors else err)]
+    stats["same_object_cases"] += 1
+    if len(got) != len(entered):
+        return [("lost-without-loss-rate", "a wire without loss rate did not deliver every packet exactly once",
+                 {"entered": len(entered), "delivered": len(got)})]
+    Dprev = None
+    for k, ((a, u), (D, v)) in enumerate(zip(entered, got)):
+        d = delay.draws[k][2]
+        want = a + d if Dprev is None else max(a + d, Dprev)
+        stats["deliveries_checked"] += 1
+        if v != u:
+            viol.append(("reordered", "the wire delivered packets out of entry order", {"k": k}))
+            break
+        if D != want:
+            viol.append(("delivered-before-a-plus-d" if D < a + d else "held-longer-than-needed" if D > want else "delivery-time-wrong",
+                         "delivery time != max(a + d, delivery of the previous packet)",
+                         {"k": k, "a": a, "d": d, "prev": Dprev, "expected": want, "got": D, "same_object_as_previous": case["again"][k]}))
+            break
+        Dprev = D
+    return viol
 
 
 def one_case(ctx, case):
     import collections
     stats = collections.Counter({k: 0 for k in KEYS})
-    viol = run_case(case, stats)
+    viol = run_same_object(case, stats) if case["kind"] == "same-object" else run_case(case, stats)
     for k in KEYS:
         ctx.count(k, stats[k])
     ctx.count(case["flavour"] + "_cases")
